@@ -79,7 +79,15 @@ func ruleF1(c *Ctx, id string) {
 						}
 					}
 				case *ssa.If:
-					if cl[x.Cond] {
+					cond := x.Cond
+					for {
+						if u, ok := cond.(*ssa.UnOp); ok && u.Op == token.NOT {
+							cond = u.X
+							continue
+						}
+						break
+					}
+					if cl[cond] {
 						handed = true
 					}
 				}
@@ -221,8 +229,8 @@ func ruleF8(c *Ctx, id string) {
 	V, P, R := c.V, c.P, c.R
 	R.Rule(id, "index blocks are released with their first slot: indshrink answers 'root is free' (returns root) on every path on which the slot handled is the first one, and every caller frees the root it is told about", 3)
 	ind := c.fn(id, "inode.(*Inode).indshrink")
-	freeIndex := c.fn(id, "inode.(*Inode).freeIndex")
-	if ind == nil || freeIndex == nil || V.Shrink == nil {
+	freeIndex := P.Func("inode.(*Inode).freeIndex") // (may be written out where it was called)
+	if ind == nil || V.Shrink == nil {
 		return
 	}
 	R.Analysed[FuncName(ind)] = true
@@ -300,8 +308,37 @@ func ruleF8(c *Ctx, id string) {
 					}
 					zero = boolEdge(sc.Fn, flag, false)
 				}
+				// the slot the root was read from, when the call was handed ip.blks[k]
+				var rootSlot *ssa.IndexAddr
+				for _, a := range cv.Call.Args {
+					if u, ok := stripConv(a).(*ssa.UnOp); ok && u.Op == token.MUL {
+						if ia, ok := u.X.(*ssa.IndexAddr); ok {
+							if n, fl, _ := fieldLoad(ia.X); n == V.Inode && fl == "blks" {
+								rootSlot = ia
+							}
+						}
+					}
+				}
 				isFree := func(in ssa.Instruction) bool {
-					return callTo(freeIndex)(in) || (callTo(V.FreeBlock)(in) && stripConv(argN(in, 0)) == blk)
+					if freeIndex != nil && callTo(freeIndex)(in) {
+						return true
+					}
+					if !callTo(V.FreeBlock)(in) {
+						return false
+					}
+					a := stripConv(argN(in, 0))
+					if a == blk {
+						return true
+					}
+					// freeIndex written out: FreeBlock(ip.blks[k]) of the slot the root came from
+					if u, ok := a.(*ssa.UnOp); ok && u.Op == token.MUL && rootSlot != nil {
+						if ia, ok := u.X.(*ssa.IndexAddr); ok {
+							if n, fl, _ := fieldLoad(ia.X); n == V.Inode && fl == "blks" && sameIndexExpr(sc.Fn, ia.Index, rootSlot.Index) {
+								return true
+							}
+						}
+					}
+					return false
 				}
 				ok := MustAfterE(sc.Fn, isFree, nil, zero)(call)
 				R.Check(ok, id, FuncName(fn)+"|frees the root indshrink reports", P.Pos(call.Pos()), "on every path on which indshrink returned a block, that block is freed (FreeBlock / freeIndex)", "must-follow except on the result == 0 edge", "a root reported as free is not freed: the index block is leaked")
